@@ -10,7 +10,7 @@ S_VIDPID == <<85, 83, 66, 32, 86, 73, 68, 58, 80, 73, 68, 61, 48, 52, 68, 56, 58
 S_SER == <<115, 101, 114, 61>>              \* "ser="
 S_SNR == <<115, 110, 114, 61>>              \* "snr="
 S_SNR_UP == <<83, 78, 82, 61>>         \* "SNR="
-LowerC(c) == IF c >= 65 /\ c <= 90 THEN c + 32 ELSE c
+LowerC(c) == IF (c >= 65 /\ c <= 90) \/ (c >= 192 /\ c <= 222 /\ c # 215) THEN c + 32 ELSE c        \* ASCII and Latin-1 letters (what the harness' names use)
 Lower(s) == [k \in 1..Len(s) |-> LowerC(s[k])]
 StartsWith(t, p) == Len(t) >= Len(p) /\ \A k \in 1..Len(p) : t[k] = p[k]
 MatchAt(t, p, i) == \A k \in 1..Len(p) : t[i + k - 1] = p[k]
